@@ -62,6 +62,27 @@ fn check_from_mins(i: u64, acc: &mut Acc) {
     }
 }
 
+/// The result of an addition must be *the* extended time of that minute count: the value that
+/// `new(r / 60, r % 60)` builds (minutes below 60), equal to it and printed alike — not merely a
+/// value whose minute count is right.
+fn malformed(got: Option<ExtendedTime>, exp: Option<u16>) -> Option<String> {
+    let (g, r) = (got?, exp?);
+    let (h, m) = ((r / 60) as u8, (r % 60) as u8);
+    if g.hour() != h || g.minute() != m {
+        return Some(format!("hour/minute are {}/{}, the time of minute {r} is {h:02}:{m:02}", g.hour(), g.minute()));
+    }
+    if Some(g) != ExtendedTime::new(h, m) {
+        return Some(format!("differs from new({h}, {m})"));
+    }
+    if boundary(r.into()) || r % 60 == 0 || r % 60 == 59 {
+        let shown = g.to_string();
+        if shown != format!("{h:02}:{m:02}") {
+            return Some(format!("prints as {shown:?}"));
+        }
+    }
+    None
+}
+
 fn check_add_minutes(i: u64, acc: &mut Acc) {
     let base = (i >> 16) as u16; // 0..=2880
     let k = (i & 0xffff) as u16 as i16;
@@ -74,7 +95,10 @@ fn check_add_minutes(i: u64, acc: &mut Acc) {
         acc.sample(|| format!("{t}.add_minutes({k}) -> {got:?}"));
     }
     if got.map(|g| g.mins_from_midnight()) != exp {
-        acc.fail("add_minutes", format!("add_minutes {base} {k}"), format!("{t}.add_minutes({k}) = {got:?}, integer addition gives {exp:?} minutes"));
+        return acc.fail("add_minutes", format!("add_minutes {base} {k}"), format!("{t}.add_minutes({k}) = {got:?}, integer addition gives {exp:?} minutes"));
+    }
+    if let Some(msg) = malformed(got, exp) {
+        acc.fail("add_minutes", format!("add_minutes {base} {k}"), format!("{t}.add_minutes({k}) = {got:?}: {msg}"));
     }
 }
 
@@ -87,7 +111,10 @@ fn check_add_hours(i: u64, acc: &mut Acc) {
     let exp = if (0..=MAX).contains(&r) { Some(r as u16) } else { None };
     acc.case(boundary(r) || boundary(base.into()) || (exp.is_none() && (-60..=MAX + 60).contains(&r)));
     if got.map(|g| g.mins_from_midnight()) != exp {
-        acc.fail("add_hours", format!("add_hours {base} {k}"), format!("{t}.add_hours({k}) = {got:?}, integer addition gives {exp:?} minutes"));
+        return acc.fail("add_hours", format!("add_hours {base} {k}"), format!("{t}.add_hours({k}) = {got:?}, integer addition gives {exp:?} minutes"));
+    }
+    if let Some(msg) = malformed(got, exp) {
+        acc.fail("add_hours", format!("add_hours {base} {k}"), format!("{t}.add_hours({k}) = {got:?}: {msg}"));
     }
 }
 
@@ -109,7 +136,7 @@ fn check_naive(i: u64, acc: &mut Acc) {
     let t: ExtendedTime = nt.into();
     acc.case(secs % 60 != 0 || secs % 3600 == 0);
     let back: Result<NaiveTime, ()> = t.try_into();
-    if u32::from(t.mins_from_midnight()) != secs / 60 || back != Ok(nt.with_second(0).unwrap()) {
+    if u32::from(t.mins_from_midnight()) != secs / 60 || back != Ok(nt.with_second(0).unwrap()) || u32::from(t.hour()) != secs / 3600 || u32::from(t.minute()) != secs / 60 % 60 {
         acc.fail("naive", format!("naive {secs}"), format!("From<NaiveTime>({nt}) = {t}, back = {back:?}"));
     }
 }
